@@ -34,6 +34,7 @@ type TCase struct {
 	Method   string `json:"method"`    // error paths: request method
 	BodyLen  int    `json:"body_len"`  // error paths: request body
 	Others   int    `json:"others"`    // normal requests issued on other connections while the faulty one is pending
+	Linger   bool   `json:"linger"`    // tunnels: both writers stop after half of their stream for longer than vhostHTTPTimeout, then go on
 }
 
 func genT(t *rapid.T) TCase {
@@ -43,11 +44,24 @@ func genT(t *rapid.T) TCase {
 	lens := []int{0, 1, 17, 4096, 65537, 300000}
 	c.Up = Body{Len: rapid.SampledFrom(lens).Draw(t, "uplen"), Seed: rapid.Uint32().Draw(t, "upseed"), Chunk: rapid.SampledFrom([]int{1, 100, 4096, 65536}).Draw(t, "upchunk")}
 	c.Down = Body{Len: rapid.SampledFrom(lens).Draw(t, "downlen"), Seed: rapid.Uint32().Draw(t, "downseed"), Chunk: rapid.SampledFrom([]int{1, 100, 4096, 65536}).Draw(t, "downchunk")}
+	c.Linger = rapid.IntRange(0, 2).Draw(t, "linger") == 0
 	if c.Method != "GET" {
 		// several MiB: more than the buffers between frps and frpc hold, so the request cannot be written out unless somebody reads it
 		c.BodyLen = rapid.SampledFrom([]int{0, 10, 70000, 8 << 20, 24 << 20}).Draw(t, "bodylen")
 	}
 	return c
+}
+
+// writeLinger writes the first half, stays silent for d, writes the rest.
+func writeLinger(w io.Writer, data []byte, chunk int, d time.Duration) error {
+	if d <= 0 {
+		return writeChunks(w, data, chunk)
+	}
+	if e := writeChunks(w, data[:len(data)/2], chunk); e != nil {
+		return e
+	}
+	time.Sleep(d)
+	return writeChunks(w, data[len(data)/2:], chunk)
 }
 
 func writeChunks(w io.Writer, data []byte, chunk int) error {
@@ -75,9 +89,13 @@ func runT(c TCase) error {
 		return err
 	}
 	defer s.Close()
-	desc := fmt.Sprintf("[%s enc=%v comp=%v tcpMux=%v timeout=%ds up=%d/%d down=%d/%d closer=%s %s body=%d others=%d]", c.Kind, c.Enc, c.Comp, c.TCPMux, c.TimeoutS, c.Up.Len, c.Up.Chunk, c.Down.Len, c.Down.Chunk, c.Closer, c.Method, c.BodyLen, c.Others)
+	desc := fmt.Sprintf("[%s linger=%v enc=%v comp=%v tcpMux=%v timeout=%ds up=%d/%d down=%d/%d closer=%s %s body=%d others=%d]", c.Kind, c.Linger, c.Enc, c.Comp, c.TCPMux, c.TimeoutS, c.Up.Len, c.Up.Chunk, c.Down.Len, c.Down.Chunk, c.Closer, c.Method, c.BodyLen, c.Others)
 
 	up, down := bodyBytes(c.Up), bodyBytes(c.Down)
+	var linger time.Duration
+	if c.Linger {
+		linger = time.Duration(c.TimeoutS)*time.Second + 700*time.Millisecond
+	}
 	type tunnelRes struct {
 		got      []byte
 		err      error
@@ -114,7 +132,7 @@ func runT(c TCase) error {
 			wg.Add(1)
 			go func() {
 				defer wg.Done()
-				_ = writeChunks(cn, down, c.Down.Chunk)
+				_ = writeLinger(cn, down, c.Down.Chunk, linger)
 			}()
 			_ = cn.SetReadDeadline(time.Now().Add(20 * time.Second))
 			buf := make([]byte, 0, len(up))
@@ -236,7 +254,7 @@ func runT(c TCase) error {
 		}
 		// from here on: a byte-transparent tunnel
 		werr := make(chan error, 1)
-		go func() { werr <- writeChunks(cn, up, c.Up.Chunk) }()
+		go func() { werr <- writeLinger(cn, up, c.Up.Chunk, linger) }()
 		gotDown := make([]byte, 0, len(down))
 		tmp := make([]byte, 64*1024)
 		for len(gotDown) < len(down) {
@@ -363,7 +381,7 @@ func runT(c TCase) error {
 }
 
 func TestTunnelsAndErrors(t *testing.T) {
-	fx.Run(t, fx.Spec[TCase]{Prop: "C02", Name: "upgrade_connect_errors", Quick: 96, Thorough: 3000, Gen: genT, Run: runT, Retry: true, ShrinkTime: "40s",
+	fx.Run(t, fx.Spec[TCase]{Prop: "C02", Name: "upgrade_connect_errors", Quick: 96, Thorough: 1200, Gen: genT, Run: runT, Retry: true, ShrinkTime: "40s",
 		Class: func(c TCase) fx.Class {
 			return fx.Class{NonTrivial: c.Up.Len+c.Down.Len > 0 || c.Kind == "unreachable" || c.Kind == "silent", Fingerprint: fmt.Sprintf("%+v", c), Labels: []string{"kind=" + c.Kind}}
 		}})
